@@ -139,6 +139,8 @@ func init() {
 			return nil, true
 		}
 		th.wake = &wakeInfo{}
+		th.yields++
+		th.yielding = true
 		st.block(th, waitNone, 0)
 		return nil, false
 	}
@@ -207,6 +209,12 @@ func init() {
 		delete(st.userLive, o.id)
 		st.userFrees++
 		return nil, true
+	}
+	// vClock: a logical clock for invocation/response timestamps of operations (linearizability checks). It is not
+	// a visible step: the value only reflects the order in which the scheduler ran the callers.
+	h["vClock"] = func(st *State, th *Thread, a []Value, _ ssa.Instruction) (Value, bool) {
+		st.clock++
+		return st.c.Const(64, uint64(st.clock)), true
 	}
 	h["vLiveBlocks"] = func(st *State, th *Thread, a []Value, _ ssa.Instruction) (Value, bool) {
 		return st.c.Const(64, uint64(len(st.userLive))), true
